@@ -22,6 +22,8 @@ type fld struct {
 	tagPad int    // extra (redundant) bytes in the tag varint
 	valPad int    // extra bytes in the value varint (wt 0)
 	lenPad int    // extra bytes in the length varint (wt 2)
+	voff   int    // byte range [voff,vend) of the VALUE inside the parsed buffer (varint bytes, fixed bytes,
+	vend   int    // or the content of a length-delimited field without its length prefix)
 }
 
 var errWire = errors.New("bad wire data")
@@ -57,21 +59,25 @@ func parseMsg(b []byte) ([]fld, error) {
 		}
 		switch f.wt {
 		case 0:
+			f.voff = i
 			f.val, i, err = readVarint(b, i)
 			if err != nil {
 				return nil, err
 			}
+			f.vend = i
 		case 1:
 			if i+8 > len(b) {
 				return nil, errWire
 			}
 			f.raw = append([]byte(nil), b[i:i+8]...)
+			f.voff, f.vend = i, i+8
 			i += 8
 		case 5:
 			if i+4 > len(b) {
 				return nil, errWire
 			}
 			f.raw = append([]byte(nil), b[i:i+4]...)
+			f.voff, f.vend = i, i+4
 			i += 4
 		case 2:
 			l, j, err := readVarint(b, i)
@@ -83,6 +89,7 @@ func parseMsg(b []byte) ([]fld, error) {
 				return nil, errWire
 			}
 			f.raw = append([]byte(nil), b[i:i+int(l)]...)
+			f.voff, f.vend = i, i+int(l)
 			i += int(l)
 		default:
 			return nil, errWire
@@ -555,4 +562,72 @@ func mutateLevel(fs []fld, s *msch, ctx *mutCtx) ([]fld, string) {
 		return out, "magnitude-leading-zero"
 	}
 	return nil, ""
+}
+
+// ---------------------------------------------------------------------------------------
+// siblings: buffers that differ from b in exactly one byte inside a VALUE (never a tag or a length)
+
+type sibling struct {
+	buf  []byte
+	pos  int
+	what string
+}
+
+func siblings(b []byte, s *msch) []sibling {
+	fs, err := parseMsg(b)
+	if err != nil || len(fs) == 0 {
+		return nil
+	}
+	var out []sibling
+	seen := map[int]bool{}
+	add := func(pos int, what string) {
+		if pos < 0 || pos >= len(b) || seen[pos] {
+			return
+		}
+		seen[pos] = true
+		nb := append([]byte(nil), b...)
+		nb[pos] ^= 0x01
+		out = append(out, sibling{nb, pos, what})
+	}
+	known := func(f fld) *fsch {
+		if s == nil {
+			return nil
+		}
+		return s.fields[int(f.num)]
+	}
+	// (1) the last byte of the buffer, when it belongs to a value
+	if last := fs[len(fs)-1]; last.vend > last.voff && last.vend == len(b) {
+		add(last.vend-1, "last byte of the buffer")
+	}
+	// (2) the tail of the last known plain bytes field (e.g. the signature), and of the last known scalar
+	for i := len(fs) - 1; i >= 0; i-- {
+		if sc := known(fs[i]); sc != nil && sc.msg == nil && fs[i].wt == 2 && fs[i].vend > fs[i].voff {
+			add(fs[i].vend-1, "tail of field "+sc.name)
+			break
+		}
+	}
+	for i := len(fs) - 1; i >= 0; i-- {
+		if sc := known(fs[i]); sc != nil && fs[i].wt == 0 {
+			add(fs[i].vend-1, "last byte of varint field "+sc.name)
+			break
+		}
+	}
+	// (3) a value byte in the middle of the buffer
+	mid := len(b) / 2
+	for _, f := range fs {
+		if f.vend <= f.voff || f.vend <= mid {
+			continue
+		}
+		pos := mid
+		if pos < f.voff {
+			pos = f.voff
+		}
+		name := "?"
+		if sc := known(f); sc != nil {
+			name = sc.name
+		}
+		add(pos, "middle of the buffer (field "+name+")")
+		break
+	}
+	return out
 }
